@@ -116,10 +116,10 @@ def run(tier, seed):
             for (dw, dh) in ((0, 0), (-1, 0), (1, 0), (0, -1), (0, 1)):
                 cases.append({"w": max(0, w + dw), "h": max(0, h + dh), "bpp": bpp, "comp": True, "data": d if (dw, dh) != (0, 0) else d[:rng.randrange(len(d) + 1)]})
         # raw bitmaps with data shorter / longer than the image
-        for (w, h) in [(0, 0), (1, 1), (2, 2), (3, 1), (16, 16), (300, 300), (256, 255)]:
+        for (w, h) in [(0, 0), (1, 1), (2, 2), (3, 1), (1, 2), (3, 2), (5, 3), (7, 8), (16, 16), (300, 300), (256, 255)]:
             for bpp in (16, 32):
                 want = w * h * (bpp // 8)
-                for delta in (0, -1, 1, -want, want):
+                for delta in (0, -1, 1, 2, 3, 2 * h, 2 * h - 1, -want, want):
                     n = want + delta
                     if 0 <= n <= 400000:
                         cases.append({"w": w, "h": h, "bpp": bpp, "comp": False, "data": [(i * 31 + 7) % 256 for i in range(n)]})
